@@ -77,7 +77,51 @@ def gen_pair(rng):
     rng.random()
     return '(multi [%s %s %s])' % (full, sub, full)
 
+def gen_gamepad_pair(rng):
+    """contexts tied to different gamepads binding the SAME buttons and axes are input-disjoint: deleting the consuming
+    one on gamepad 1 changes nothing for the listener on gamepad 0"""
+    ids = Ids()
+    hi, lo = rng.choice([(0, 3), (1, 2), (6, 7), (4, 5)])          # hi has the higher priority
+    L = rng.randint(5, 9)
+    def ctx(slot, padno, consume):
+        return spec([action(ids, aid(j % 2, slot, consume, False), [bind(ids, inp, [PROBE], [])]) for j, inp in enumerate([pbutton(0), paxis(0)])], pad=padno)
+    cfg = {(hi, 0): ctx(0, 1, True), (lo, 0): ctx(1, 0, rng.random() < .5)}
+    raws = [raw(pads=[pad(p, [0] if rng.random() < .6 else [], [(0, rng.choice([F(0), F(1, 2), F(-1)]))]) for p in range(2)]) for _ in range(L)]
+    def steps(menu):
+        return [sop(spawn(0, menu)), frame(raw(pads=[pad(0), pad(1)]))] + [frame(r) for r in raws]
+    full = scenario(sorted([hi, lo]), [0], cfg, steps(sorted([hi, lo])))
+    sub = scenario([lo], [0], {k: v for k, v in cfg.items() if k[0] == lo}, steps([lo]))
+    return '(multi [%s %s %s])' % (full, sub, full)
+
+def gen_entity_pair(rng):
+    """per-player instances of one exclusive type with disjoint bindings (and a rebuild in the middle): the instance of
+    player 0 behaves the same whether or not player 1 exists"""
+    ids = Ids()
+    c = rng.choice([0, 2, 4, 6])
+    L = rng.randint(6, 10)
+    def player(pool):
+        ks = rng.sample(pool, 2)
+        return spec([action(ids, aid(j % 2, 0, rng.random() < .5, False), [bind(ids, key(k), [PROBE], [])]) for j, k in enumerate(ks)])
+    first = rng.choice([0, 1])                     # which player comes first in the group
+    cfg = {(c, 0): player([0, 1]), (c, 1): player([2, 3])}
+    raws = [raw(keys=[k for k in range(4) if rng.random() < .5]) for _ in range(L)]
+    def steps(ents):
+        order = [e for e in ([first, 1 - first]) if e in ents]
+        st = [sop(spawn(e, [c])) for e in order] + [frame(raw())]
+        for i, r in enumerate(raws):
+            st.append(frame(r))
+            if i == L // 2: st.append(sop(REBUILD)); st.append(frame(raw()))
+        return st
+    kept = rng.choice([0, 1])
+    full = scenario([c], [0, 1], cfg, steps([0, 1]))
+    sub = scenario([c], [kept], {k: v for k, v in cfg.items() if k[1] == kept}, steps([kept]))
+    return '(multi [%s %s %s])' % (full, sub, full)
+
 def cases(tier, rng):
+    for _ in range(60 if tier == 'thorough' else 8):
+        yield (gen_gamepad_pair(rng), 'pair-per-gamepad')
+    for _ in range(60 if tier == 'thorough' else 8):
+        yield (gen_entity_pair(rng), 'pair-per-entity')
     for _ in range(2000 if tier == 'thorough' else 100):
         yield (gen_pair(rng), 'pair')
 
@@ -87,7 +131,7 @@ def nontrivial(case, out):
 STAGES = [dict(name='pairs', mode='app', coq='Check.C17c', cases=cases, nontrivial=nontrivial, shard=10, noshrink=True, across_processes=40,
                exhaustive={'thorough': False, 'quick': False},
                rule='random configurations of 2-5 context types split into a kept set R and a deleted set D whose bound inputs are disjoint (different keys, different required modifier keys, different '
-                    'mouse and gamepad inputs), interleaved in priority, with consuming actions, built-in and scripted conditions and modifiers, 1-2 entities, a component op or rebuild in the middle; three runs '
+                    'mouse and gamepad inputs), interleaved in priority, with consuming actions, built-in and scripted conditions and modifiers, 1-2 entities, a component op or rebuild in the middle; contexts tied to different gamepads that bind the same buttons and axes (the consuming one deleted); per-player instances of one exclusive type with disjoint keys, a rebuild in the middle, one player deleted; three runs '
                     'per case: the full configuration, the configuration with D deleted and with extra activity on keys, modifier keys, a mouse button and gamepad inputs that nobody binds, and the full configuration again; all cases are run a second time in fresh processes and the traces compared byte by byte. '
                     'non-trivial = some action fires; distinct = distinct case text')]
 CLAUSES = {2: 'main-segment events of the kept contexts differ when the disjoint contexts are deleted / unbound inputs are active', 3: 'later events of the kept contexts differ', 4: 'the invocation log (reads, values, results) of the kept contexts differs',
